@@ -141,6 +141,8 @@ def run(ck):
                       "handler.Handle (-> buildErrorResponse on error); proxy: real handleConnection over net.Pipe, not-ready and "
                       "no-backend situations.  Non-trivial = every op (each is a distinct (key, version, body)); distinct = distinct op lines")
     ck.cov["exhaustive"] = True
+    ck.partial = ("theorems cover the regenerated tables and the response-header rule; that every response BODY decodes at the "
+                  "request version is validated exhaustively over (key, version) with generated bodies, not proved (kmsg is the codec)")
     # ---------------- broker
     ops, meta = [], []
     n = 0
